@@ -405,6 +405,14 @@ class FileSystemStoreBackend(StoreBackendBase, StoreBackendMixin):
         if location == self.location:
             rm_subdirs(location)
         else:
+            # Remove the sub-directories (the cached results of a function)
+            # before the files next to them (the source code of the function):
+            # if the process is killed in between, the stored source code
+            # still tells the next process that the results are outdated.
+            try:
+                rm_subdirs(location)
+            except OSError:
+                pass
             shutil.rmtree(location, ignore_errors=True)
 
     def create_location(self, location):
